@@ -29,6 +29,10 @@ def run(chk, tier, proof_ok):
     nruns = 45 if not full else (1600 if tier == 'thorough' else 150)
     findings, cov = transdim.c10_search(chk.seed, nruns, procs=8 if full else 1)
     chk.coverage['search'] = cov
+    import realsearch
+    of, nopt = realsearch.td_options_findings(chk.seed * 61 + 9, 6 if tier == 'quick' else 60)
+    chk.coverage['options_checks'] = nopt
+    findings = list(findings) + of
     chk.coverage['evaluations'] = chk.coverage.get('evaluations', 0) + nruns
     chk.coverage['distinct_nontrivial'] = chk.coverage.get('distinct_nontrivial', 0) + nruns
     chk.notes += ['index bounds the constructor does not check (hypotheses 0 <= kmin, kmax <= K of '
